@@ -10,6 +10,7 @@ import os
 import shutil
 import sqlite3
 import sys
+import time
 import tempfile
 from datetime import datetime
 from pathlib import Path
@@ -250,11 +251,15 @@ def run_case(case: dict[str, Any], d: Path) -> dict[str, Any]:
 
         with contextlib.ExitStack() as stack:
             stack.enter_context(mock.patch("gallia.plugins.plugin.load_transport", lambda target: Loader))
-            fault = case.get("db_close")
+            fault = case.get("db_close") or ""
+            # what the sqlite layer raises differs: OperationalError for I/O trouble, ValueError("no active connection") from
+            # aiosqlite when the connection is already gone
+            exc_cls: Any = ValueError if fault.endswith("-ve") else _sq.OperationalError
+            fault = fault.removesuffix("-ve")
             if fault == "complete":
                 # the final update of the run entry fails (disk full, database locked by another process)
                 async def failing_complete(self: Any, *a: Any, **kw: Any) -> None:
-                    raise _sq.OperationalError("verif: database or disk is full")
+                    raise exc_cls("verif: database or disk is full / no active connection")
 
                 stack.enter_context(mock.patch.object(DBHandler, "complete_run_meta", failing_complete))
             elif fault == "disconnect":
@@ -262,7 +267,7 @@ def run_case(case: dict[str, Any], d: Path) -> dict[str, Any]:
 
                 async def failing_disconnect(self: Any) -> None:
                     await real(self)
-                    raise _sq.OperationalError("verif: disk I/O error while closing")
+                    raise exc_cls("verif: disk I/O error while closing / no active connection")
 
                 stack.enter_context(mock.patch.object(DBHandler, "disconnect", failing_disconnect))
             try:
@@ -271,7 +276,9 @@ def run_case(case: dict[str, Any], d: Path) -> dict[str, Any]:
                 res["escaped"] = f"{type(e).__name__}: {e}"
 
     import logging
+    import threading
 
+    before = set(threading.enumerate())
     old_argv = sys.argv
     sys.argv = ["gallia", "vf", "c15"]
     glog = logging.getLogger("gallia")
@@ -282,6 +289,24 @@ def run_case(case: dict[str, Any], d: Path) -> dict[str, Any]:
     finally:
         sys.argv = old_argv
         glog.setLevel(old_level)
+    # A thread that is not a daemon and still alive keeps the interpreter from exiting: the process would never deliver its exit
+    # code. (Threads get a moment to wind down; the leaked ones are stopped afterwards so that they cannot pile up here.)
+    left = [t for t in threading.enumerate() if t not in before and not t.daemon and t is not threading.current_thread()]
+    deadline = time.monotonic() + 1.0
+    while left and time.monotonic() < deadline:
+        for t in left:
+            t.join(0.05)
+        left = [t for t in left if t.is_alive()]
+    res["threads_left"] = [f"{getattr(getattr(t, '_target', None), '__module__', type(t).__module__)}.{getattr(getattr(t, '_target', None), '__name__', type(t).__name__)}" for t in left]
+    for t in left:
+        try:  # aiosqlite's connection thread ends when a queued call returns its stop sentinel
+            from aiosqlite.core import _STOP_RUNNING_SENTINEL
+
+            if getattr(getattr(t, "_target", None), "__name__", "") == "_connection_worker_thread":
+                t._args[0].put_nowait((None, lambda: _STOP_RUNNING_SENTINEL))  # type: ignore[attr-defined]
+                t.join(1.0)
+        except Exception:  # noqa: BLE001
+            pass
     return res
 
 
@@ -289,7 +314,7 @@ def observe(case: dict[str, Any], d: Path, res: dict[str, Any]) -> dict[str, Any
     """Everything the property talks about, read back from disk."""
     from gallia.log import PenlogReader
 
-    obs: dict[str, Any] = {"rc": res.get("rc"), "escaped": res.get("escaped")}
+    obs: dict[str, Any] = {"rc": res.get("rc"), "escaped": res.get("escaped"), "threads_left": res.get("threads_left") or []}
     cmd = res.get("cmd")
     if case["artifacts"]:
         runs = sorted((d / "artifacts").glob("*/run-*"))
@@ -428,6 +453,9 @@ def check(case: dict[str, Any]) -> list[tuple[str, str]]:
             out.append((f"C15/log-records/{where}", f"{ctx}: markers {obs.get('markers')} expected {expected_markers(case)}"))
         if obs.get("leaked_handlers"):
             out.append((f"C15/log-handler-left-open/{where}/{hook_state}", f"{ctx}: {obs['leaked_handlers']} handler(s) still attached"))
+    if obs.get("threads_left"):
+        out.append((f"C15/process-cannot-exit/non-daemon-thread-left/{where}", f"{ctx}: entry_point() returned {obs['rc']} but {obs['threads_left']} is still running: "
+                    "the interpreter waits for it at exit, the process never delivers its exit code"))
     if case["lock"] and obs.get("lock_free") is not True:
         out.append((f"C15/lock-not-released/{where}/{hook_state}", f"{ctx}: flock(LOCK_NB) -> {obs.get('lock_free')}"))
     if case["db"] == "on":
@@ -436,7 +464,7 @@ def check(case: dict[str, Any]) -> list[tuple[str, str]]:
             out.append((f"C15/db-run-meta-rows/{where}", f"{ctx}: {rm}"))
         else:
             end_time, code, _cfg = rm[0]
-            if case.get("db_close") == "complete":
+            if (case.get("db_close") or "").startswith("complete"):
                 pass  # the injected fault is the failure of exactly this update
             elif end_time is None or code != obs["rc"]:
                 out.append((f"C15/db-run-meta-not-completed/{case['cmd']}", f"{ctx}: run_meta end_time={end_time} exit_code={code}, returned {obs['rc']}"))
@@ -472,7 +500,7 @@ def case_s(draw) -> dict[str, Any]:
     return {"cmd": draw(st.sampled_from(CMDS)), "kind": kind, "point": draw(st.sampled_from(POINTS)) if kind != "return" else "main",
             "artifacts": draw(st.booleans()), "db": draw(st.sampled_from(["off", "on", "on", "on", "dir", "garbage", "schema"])), "lock": draw(st.booleans()),
             "hooks_enabled": draw(st.sampled_from([True, True, True, False])), "pre_hook": draw(st.sampled_from(HOOKS)), "post_hook": draw(st.sampled_from(HOOKS)),
-            "db_close": draw(st.sampled_from([None, None, None, "complete", "disconnect"])),
+            "db_close": draw(st.sampled_from([None, None, None, None, "complete", "disconnect", "complete-ve", "disconnect-ve"])),
             "rich": draw(st.one_of(st.none(), st.fixed_dictionaries({
                 "pdu": st.binary(min_size=0, max_size=6).map(bytes.hex), "service": st.sampled_from([0x10, 0x22, 0x27, 0x3E]),
                 "ids": st.lists(st.integers(0, 0xFFFF), max_size=4, unique=True).map(sorted), "mask": st.integers(0, 0xFFFF), "count": st.integers(0, 2**31)})))}
@@ -485,7 +513,7 @@ def grid() -> list[dict[str, Any]]:
             for he, pre, post in [(True, "none", "none"), (True, "ok", "ok"), (True, "fail", "ok"), (True, "ok", "fail"), (True, "missing", "missing"), (False, "ok", "fail")]:
                 out.append({"cmd": cmd, "kind": kind, "point": point, "artifacts": art, "db": db, "lock": lock, "hooks_enabled": he, "pre_hook": pre, "post_hook": post,
                             "rich": {"pdu": "22f190", "service": 0x27, "ids": [1, 16, 255], "mask": 0x7F, "count": 300} if (len(out) % 3 == 0) else None,
-                            "db_close": [None, "complete", "disconnect"][len(out) % 5 % 3] if db == "on" else None})
+                            "db_close": [None, "complete", "disconnect", "complete-ve", "disconnect-ve"][len(out) % 7 % 5] if db == "on" else None})
     return out
 
 
